@@ -14,6 +14,10 @@ import BfeVerif.C21.Model
     e         Err()                      -> e=<e>|e=nil
     d         Done() closed?             -> d=open|d=closed
     len       buffered bytes             -> len=<n>|len=nil
+    dis       Discard()                  -> dis=<n>
+  Lifecycle case: `L;caps=<c0>.<c1>…;tok;…` with tokens `n:<buf>` (NewPipeFromBufferPool where the pool hands
+  out buffer <buf>; pipes are numbered in creation order; result `n`) and `<pipe>.<tok>` (any token above on
+  that pipe; `rel` puts the buffer back into the pool).
   Error code 0 is io.EOF.
 
   The verdict is computed by `oracle`, a trace checker that knows nothing of FixedBuffer/Pipe
@@ -23,7 +27,7 @@ namespace BfeVerif.C21
 open BfeVerif.Proto
 
 inductive Tok
-  | w (d : List UInt8) | c (e : Nat) (fn : Bool) | b (e : Nat) | rel | r (n : Nat) | j | e | d | len
+  | w (d : List UInt8) | c (e : Nat) (fn : Bool) | b (e : Nat) | rel | r (n : Nat) | j | e | d | len | dis
 deriving Repr
 
 def parseTok (s : String) : Option Tok :=
@@ -38,6 +42,7 @@ def parseTok (s : String) : Option Tok :=
   | ["e"] => some .e
   | ["d"] => some .d
   | ["len"] => some .len
+  | ["dis"] => some .dis
   | _ => none
 
 def parseOp (op : String) : Option (Nat × List Tok) :=
@@ -112,6 +117,10 @@ def runTok (s : Sys) (t : Tok) : Option (Sys × String) :=
     match s.p.b with
     | some fb => some (s, "len=" ++ toString fb.len)
     | none => some (s, "len=nil")
+  | .dis =>
+    match s.step .discard with
+    | (s', .discarded n) => some (s', "dis=" ++ toString n)
+    | (s', _) => some (s', "dis=?")
 
 def runToks : Sys → List Tok → List String → Option (List String)
   | _, [], acc => some acc.reverse
@@ -130,6 +139,7 @@ structure Sp where
   berr : Option Nat := none
   released : Bool := false
   pending : Option Nat := none -- a Read(len n) is parked
+  ghost : List UInt8 := []     -- lifecycle: what the previous owner of the buffer left unread (must be invisible)
 
 def Sp.buffered (s : Sp) : List UInt8 := if s.released then [] else s.acc.drop s.del
 
@@ -161,8 +171,10 @@ def parseRd (s : Sp) (n : Nat) (v : String) : Sp × Option String :=
       if s.berr.isSome then (s', some "break-delayed")
       else
         let want := s.buffered.take n
-        if s.buffered.isEmpty then (s', some "phantom-data")
-        else if bs == want then (s', none)
+        let foreign := !s.ghost.isEmpty && !bs.isEmpty && bs == (s.ghost ++ s.buffered).take n
+        if !s.buffered.isEmpty && bs == want then (s', none)
+        else if foreign then (s', some "foreign-bytes")
+        else if s.buffered.isEmpty then (s', some "phantom-data")
         else (s', some "fifo")
 
 def stepSpec0 (s : Sp) (t : Tok) (res : String) : Sp × Option String :=
@@ -180,7 +192,8 @@ def stepSpec0 (s : Sp) (t : Tok) (res : String) : Sp × Option String :=
         else if refused then (if n == 0 && es == "closed" then (s', none) else (s', some "write-after-close"))
         else if n < d.length && es != "full" then (s', some "silent-trunc")
         else if n == d.length && es != "none" then (s', some "false-refusal")
-        else if n != min d.length free then (s', some "write-cap")
+        else if n != min d.length free then
+          (s', some (if !s.ghost.isEmpty && n == min d.length (free - s.ghost.length) then "foreign-bytes" else "write-cap"))
         else (s', none)
     | _ => (s, some "bad-token")
   | .c e _ =>
@@ -211,7 +224,14 @@ def stepSpec0 (s : Sp) (t : Tok) (res : String) : Sp × Option String :=
     (s, if res == want then none else some "done-chan")
   | .len =>
     let want := if s.released then "len=nil" else "len=" ++ toString s.buffered.length
-    (s, if res == want then none else some "len")
+    let dirty := "len=" ++ toString (s.ghost.length + s.buffered.length)
+    (s, if res == want then none else if !s.ghost.isEmpty && res == dirty then some "foreign-bytes" else some "len")
+  | .dis =>
+    let k := s.buffered.length
+    let dirty := "dis=" ++ toString (s.ghost.length + k)
+    ({ s with acc := s.acc.take s.del },
+      if res == "dis=" ++ toString k then none
+      else if !s.ghost.isEmpty && res == dirty then some "foreign-bytes" else some "discard-count")
 
 def isSignal : Tok → Bool | .w _ => true | .c _ _ => true | .b _ => true | _ => false
 
@@ -245,6 +265,119 @@ def isJ : Tok → Bool | .j => true | _ => false
 def isBrk : Tok → Bool | .b _ => true | _ => false
 def isClose : Tok → Bool | .c _ _ => true | _ => false
 
+/-! ### lifecycles over a shared pool -/
+
+inductive LTok
+  | new (buf : Nat)
+  | on (i : Nat) (t : Tok)
+
+def parseLTok (s : String) : Option LTok :=
+  match s.splitOn "." with
+  | [a] =>
+    match a.splitOn ":" with
+    | ["n", b] => b.toNat?.map LTok.new
+    | _ => none
+  | [i, t] => do
+    let k ← i.toNat?
+    let tok ← parseTok t
+    pure (.on k tok)
+  | _ => none
+
+structure LState where
+  w : World := World.init
+  poolIds : List Nat := []     -- buffer id of each pooled buffer (same order as `w.pool`)
+  pipeBuf : List Nat := []     -- buffer id of each pipe
+  used : List Nat := []
+
+/-- `none` = crash (second Release), `some (st, "bad-op")` for an impossible `n:` -/
+def runLTok (caps : List Nat) (st : LState) : LTok → Option (LState × String)
+  | .new b =>
+    match st.poolIds.idxOf? b with
+    | some k =>
+      some ({ st with w := st.w.step (.reuse k), poolIds := st.poolIds.eraseIdx k, pipeBuf := st.pipeBuf ++ [b] }, "n")
+    | none =>
+      if st.used.contains b then some (st, "bad-op")
+      else match caps[b]? with
+        | none => some (st, "bad-op")
+        | some cap =>
+          some ({ st with w := st.w.step (.fresh cap), pipeBuf := st.pipeBuf ++ [b], used := b :: st.used }, "n")
+  | .on i t =>
+    match st.w.pipes[i]? with
+    | none => some (st, "bad-op")
+    | some s =>
+      match t with
+      | .rel =>
+        match s.p.b with
+        | none => none
+        | some _ =>
+          some ({ st with w := st.w.step (.on i .release), poolIds := st.poolIds ++ [st.pipeBuf.getD i 0] }, "rel")
+      | _ =>
+        match runTok s t with
+        | none => none
+        | some (s', o) => some ({ st with w := { st.w with pipes := st.w.pipes.set i s' } }, o)
+
+def runLToks (caps : List Nat) : LState → List LTok → List String → Option (List String)
+  | _, [], acc => some acc.reverse
+  | st, t :: ts, acc =>
+    match runLTok caps st t with
+    | none => none
+    | some (st', o) => if o == "bad-op" then some ["bad-op"] else runLToks caps st' ts (o :: acc)
+
+structure LSpec where
+  pipes : List Sp := []
+  pipeBuf : List Nat := []
+  leftover : List (Nat × List UInt8) := []   -- per buffer id: what its last owner left unread
+
+def lookupLeft (l : List (Nat × List UInt8)) (b : Nat) : List UInt8 :=
+  match l.find? (·.1 == b) with
+  | some (_, x) => x
+  | none => []
+
+def oracleL (caps : List Nat) : LSpec → List LTok → List String → Option String
+  | _, [], [] => none
+  | sp, .new b :: ts, r :: rs =>
+    if r != "n" then some "bad-token" else
+    oracleL caps { sp with pipes := sp.pipes ++ [{ cap := caps.getD b 0, ghost := lookupLeft sp.leftover b }],
+                           pipeBuf := sp.pipeBuf ++ [b] } ts rs
+  | sp, .on i t :: ts, r :: rs =>
+    match sp.pipes[i]? with
+    | none => some "bad-token"
+    | some s =>
+      match stepSpec s t r with
+      | (_, some cls) => some cls
+      | (s', none) =>
+        let b := sp.pipeBuf.getD i 0
+        let left := match t with
+          | .rel => (b, s.ghost ++ s.buffered) :: sp.leftover.filter (·.1 != b)
+          | _ => sp.leftover
+        oracleL caps { sp with pipes := sp.pipes.set i s', leftover := left } ts rs
+  | _, _, _ => some "token-count"
+
+def runLifecycle (op impl : String) : Ans :=
+  match op.splitOn ";" with
+  | "L" :: capS :: rest =>
+    match capS.splitOn "=" with
+    | ["caps", cs] =>
+      match (cs.splitOn ".").mapM String.toNat?, rest.mapM parseLTok with
+      | some caps, some ts =>
+        let model := match runLToks caps {} ts [] with
+          | none => panicMsg
+          | some rs => ";".intercalate rs
+        if model == "bad-op" then { model := "bad-op", verdict := "skip" } else
+        let nrel := (ts.filter fun t => match t with | .on _ .rel => true | _ => false).length
+        let nnew := (ts.filter fun t => match t with | .new _ => true | _ => false).length
+        let verdict :=
+          if impl.startsWith "PANIC" then (if model == panicMsg then "skip" else "FAIL:crash")
+          else match oracleL caps {} ts (impl.splitOn ";") with
+            | none => "ok"
+            | some cls => "FAIL:" ++ cls
+        { model := model, verdict := verdict,
+          tags := ["lifecycle"] ++ (if nrel ≥ 1 && nnew ≥ 2 then ["reuse", "nt"] else []) ++
+                  (if (impl.splitOn "dis=").length > 1 then ["discard"] else []) }
+      | _, _ => { model := "bad-op", verdict := "skip" }
+    | _ => { model := "bad-op", verdict := "skip" }
+  | _ => { model := "bad-op", verdict := "skip" }
+
 /-- Stress case `S;cap=<n>;data=<hex>;wc=<sizes>;rc=<sizes>;e=<code>`: a writer goroutine writes `data`
     in chunks (retrying the refused remainder until everything was taken), then closes with `e`; a
     reader goroutine reads until it gets an error.  By `C21_fifo`, `C21_close_after_data`,
@@ -265,6 +398,7 @@ def run (op impl : String) : Ans :=
     match runStress op impl with
     | some a => a
     | none => { model := "bad-op", verdict := "skip" }
+  else if op.startsWith "L;" then runLifecycle op impl
   else
   match parseOp op with
   | none => { model := "bad-op", verdict := "skip" }
@@ -287,6 +421,7 @@ def run (op impl : String) : Ans :=
       (if ts.any isClose then ["close"] else []) ++
       (if countRel ts ≥ 1 then ["rel"] else []) ++
       (if countRel ts ≥ 2 then ["rel2"] else []) ++
+      (if (impl.splitOn "dis=").length > 1 then ["discard"] else []) ++
       (if ts.any isRd && ts.length ≥ 4 then ["nt"] else [])
     { model := model, verdict := verdict, tags := tags }
 
